@@ -98,6 +98,12 @@ CHECKS.update({
          "a mismatch counts only if the same form and value round-trips with bash on both sides; values are valid UTF-8 without NUL; bash 5.2.15 is the second reader", "DESIGN.md §3 C13"),
 })
 
+CHECKS.update({
+ "C11": ("property testing over generated pipelines with forced stage-start schedules (feature-gated pause points); differential oracle vs bash 5.2.15 on the data that arrives (length + checksum), PIPESTATUS and $?, with a three-strikes hang policy",
+         "4k (quick) / 40k (thorough) pipelines of 2-4 stages over 6 producer, 8 filter and 9 consumer kinds (externals, brace groups, subshells, functions, while-read loops, early-exit consumers), payloads 0 B .. 1 MiB (quick) / 4 MiB (thorough) incl. 65535/65536/65537, forced exit statuses, pipefail, 7 pause-point schedules; $( ) around pipelines with trailing-newline variants; several reads sharing one descriptor. Exploration.",
+         "bash 5.2.15 reference; with an early-exit consumer only the consumer's output and $? are compared and pipefail is off (upstream statuses are timing-dependent in bash too); a hang counts only when bash needed < 1/20 of the 8 s limit and brush exceeded it three times (else inconclusive)", "DESIGN.md §3 C11"),
+})
+
 NOT_YET = {}
 
 def hooks():
